@@ -3,7 +3,7 @@
 The shared rules below were each written after a seeded change in one property, but what they state is a necessary
 condition wherever the same shape of code occurs: a view of stored data updated in place, an ``out=`` array that is
 also an input read later, an element used as the operand of an update that runs over it, an observer that writes
-into what it shows, (the fresh-write rule for result arrays is not
+into what it shows, an update of an array read back from an object that may have kept the caller's argument, (the fresh-write rule for result arrays is not
 among them: stateful algorithm classes such as the Smith-normal-form reducer update their own matrices in place by
 design; it stays with the classes it was tuned for).  After a property's own rules (and before delegation) they
 run over the Python files the property is anchored in, under the ids ``R<XX>y.<rule>``; each keeps itself alive with
@@ -15,7 +15,7 @@ from __future__ import annotations
 import os
 
 from engine import core
-from rules import delegation, shared_lazycache, shared_trunc, shared_outalias, shared_readonly, shared_selfalias, shared_viewupdate
+from rules import delegation, shared_ctoralias, shared_lazycache, shared_trunc, shared_outalias, shared_readonly, shared_selfalias, shared_viewupdate
 
 
 def run(rep: core.Report, pid: str) -> None:
@@ -31,3 +31,4 @@ def run(rep: core.Report, pid: str) -> None:
     shared_readonly.run(rep, f"R{xx}y.readonly", files, 0)
     shared_trunc.run_int_calls(rep, f"R{xx}y.inttrunc", files)
     shared_lazycache.run(rep, f"R{xx}y.lazycache", files)
+    shared_ctoralias.run(rep, f"R{xx}y.ctoralias", files, core.python_files("phonopy"))
